@@ -44,3 +44,4 @@ CFG = {'level': 'exploration',
                  'the strict parser reads the formatted result correctly (guarded by C02/C20)',
                  'operations receive valid arguments only; Cleanup is called before every bulk set and at the end']}
 CFG['level_text'] += ' The edit universe includes a module path spelled `require`, a version pair differing in +incompatible only, and `indirect` markers with other white space than single blanks.'
+CFG['level_text'] += ' A sixth of the requested requirement lists repeat one entry (same path, same version), which asks for one requirement.'
